@@ -337,9 +337,6 @@ def userShape (c : CallShape α) : Bool :=
   c.pos.all (fun v => match v with | .arg _ => true | .const _ => false)
   && c.kw.all (fun kv => match kv.2 with | .arg _ => true | .const _ => false)
 
-/-- Class of the known finding C14-enumerate-iterable-kw: `enumerate` called with keyword `iterable`. -/
-def enumerateIterableKw (b : String) (c : CallShape α) : Bool := b == "enumerate" && hasKey "iterable" c.kw
-
 /-- Builtins whose result is a lazy object. -/
 def lazyBuiltins : List String := ["enumerate", "filter", "map", "range", "zip"]
 
